@@ -4,7 +4,6 @@
 use crate::core::{Case, Ctx, Parsers, Rng};
 use crate::gen::alphabet::{self, ALPHABET, SEEDS, SMALL};
 use crate::gen::recipe::{self as g, feat, GenOpts};
-use crate::mon::c05::body_start;
 use cooklang::parser::verif_tokens;
 use cooklang::Extensions;
 use serde_json::{json, Value as J};
@@ -130,6 +129,31 @@ fn judge(ctx: &mut Ctx, ps: &mut Parsers, base: &Parsed, orig: &str, transformed
         }
         Some((c, m)) => ctx.violation(&case, t, &format!("{c}|{detail}"), m),
     }
+}
+
+/// where the recipe body begins: after the closing fence of a front matter that is the first thing in the file that is
+/// not a white-space-only line (the fence lines themselves are not lines of the recipe: nothing is appended to them)
+fn body_start(input: &str) -> usize {
+    let mut off = 0;
+    let mut lines = input.split_inclusive('\n');
+    let mut first = None;
+    for l in lines.by_ref() {
+        off += l.len();
+        if !l.trim().is_empty() {
+            first = Some(l);
+            break;
+        }
+    }
+    if first.map(|l| l.trim_end()) != Some("---") {
+        return 0;
+    }
+    for l in lines {
+        off += l.len();
+        if l.trim_end() == "---" {
+            return off;
+        }
+    }
+    0
 }
 
 /// T1 on any input without backslash or CR
